@@ -387,12 +387,15 @@ def continue_to_end(rebound, fmt, b, sp, tmpdir, restore_dt=None):
     sign = 1 if sp["dt"] > 0 else -1
     first = True
     for tmax in sp["tmax"]:
-        if (tmax - s.t) * sign > 0:
+        # reb_check_exit (rebound.c:684-688) regards a call as finished when |t - tmax| < 1e-12 |tmax|: t after the
+        # shortened step can be one ulp off tmax
+        reached = abs(tmax - s.t) < 1e-12 * abs(tmax)
+        if (tmax - s.t) * sign > 0 and not reached:
             s.integrate(tmax)
             if restore_dt is not None and first:
                 s.dt = restore_dt
             first = False
-        elif tmax == s.t and restore_dt is not None and first:
+        elif reached and restore_dt is not None and first:
             s.synchronize()
             s.dt = restore_dt
             first = False
@@ -499,6 +502,8 @@ def analyse_bodies(c, rebound, fmt, sp, res, tmpdir, stats, tag):
             # the body IS the reference run's boundary serialisation, bit for bit: that continuing a saved state does not
             # reproduce the run is then a defect of save/load (C05), not of the server protocol
             stats["exact_but_save_load_not_continuable(C05)"] += 1
+            c.cov.setdefault("exact_boundary_snapshots_not_continuable", []).append(
+                {"integrator": sp["integ"], "steps_done": n, "ends": ends, "final_fields_differing": dd[:6]})
             continue
         if explained:
             stats["F18a"] += 1
